@@ -18,7 +18,7 @@ import (
 func init() {
 	core.Register(&core.Prop{
 		ID: "C01",
-		Rule: "case = one pair of valid polygonal operands in general position (operands with more than one ring are additionally presented as ONE polygon holding all rings in random order - a hole may precede its shell, as in the library's own Difference/Union results - half of those laid out as consecutive sub-slices of one backing array; star rings of 3-60 vertices (300 thorough) with 0-3 holes, rotated comb and staircase rings, multi-polygons of 2-4 disjoint members, boxes; configurations: operands differing in size by 10^3..10^6.3 (a triangle inside / in a hole of / next to a large shape), overlapping, B inside A, B inside a hole of A, A inside B, disjoint with overlapping bounding boxes, bounding-box-disjoint on one or both axes; random ring orientation/start/closure) run through all four operations plus the reverse difference for every receiver/argument presentation {Polygon, MultiPolygon, *Bounds}^2 the shapes admit; " +
+		Rule: "case = one pair of valid polygonal operands in general position (operands with more than one ring are additionally presented as ONE polygon holding all rings in random order - a hole may precede its shell, as in the library's own Difference/Union results - half of those laid out as consecutive sub-slices of one backing array, and as a MultiPolygon whose members hold their rings in random order, sometimes with an empty member; star rings of 3-60 vertices (300 thorough) with 0-3 holes, rotated comb and staircase rings, multi-polygons of 2-4 disjoint members, boxes; configurations: operands differing in size by 10^3..10^6.3 (a triangle inside / in a hole of / next to a large shape), overlapping, B inside A, B inside a hole of A, A inside B, disjoint with overlapping bounding boxes, bounding-box-disjoint on one or both axes; random ring orientation/start/closure) run through all four operations plus the reverse difference for every receiver/argument presentation {Polygon, MultiPolygon, *Bounds}^2 the shapes admit; " +
 			"each result is judged at <= 96 margin points by the harness's exact even-odd membership (A, B and result rings), by the inclusion-exclusion area identities (exact Operand areas, nesting-parity area of the result rings), ring closure and the empty-result rule; " +
 			"an evaluation is one operation result judged; non-trivial = Operand pair whose true intersection and both differences each contain a margin point (distinct by Operand hash)",
 		Assumptions: []string{"operands validated by the harness: simple rings, holes inside shells, no vertex of one Operand within 1e-7*diameter of an edge of the other (general position)", "test points keep 1e-7*diameter clear of every input edge", "Polygonal.Area() of a result is compared only when its rings do not touch each other (geom documents hole detection as undefined there)"},
@@ -183,6 +183,25 @@ func (o *Operand) shuffled(r *gen.R) presentation {
 		return presentation{"Polygon", gen.InArena(pg).G.(geom.Polygon)}
 	}
 	return presentation{"Polygon", pg}
+}
+
+// shuffledMulti presents the operand as a MultiPolygon whose member polygons hold their rings in
+// random order (hole before shell, as in results of the library itself wrapped in a MultiPolygon),
+// sometimes with an empty polygon among the members.
+func (o *Operand) shuffledMulti(r *gen.R) presentation {
+	mp := make(geom.MultiPolygon, 0, len(o.Polys)+1)
+	for _, pg := range o.Polys {
+		q := make(geom.Polygon, len(pg))
+		for i, k := range r.Perm(len(pg)) {
+			q[i] = pg[k]
+		}
+		mp = append(mp, q)
+	}
+	if r.Chance(0.2) {
+		i := r.Intn(len(mp) + 1)
+		mp = append(mp[:i:i], append(geom.MultiPolygon{geom.Polygon{}}, mp[i:]...)...)
+	}
+	return presentation{"MultiPolygon", mp}
 }
 
 func (o *Operand) Contains(p exact.P) bool {
@@ -525,11 +544,11 @@ func run(c *core.Ctx, idx int) {
 
 	pas, pbs := a.presentations(), b.presentations()
 	if len(a.Rings) > 1 {
-		pas = append(pas, a.shuffled(r))
+		pas = append(pas, a.shuffled(r), a.shuffledMulti(r))
 		c.Count("presentation.rings_shuffled_into_one_polygon")
 	}
 	if len(b.Rings) > 1 {
-		pbs = append(pbs, b.shuffled(r))
+		pbs = append(pbs, b.shuffled(r), b.shuffledMulti(r))
 		c.Count("presentation.rings_shuffled_into_one_polygon")
 	}
 	for _, pa := range pas {
